@@ -48,12 +48,9 @@ func (g *verifGhost) dropReservation(i int) verifReservation {
 // verifReserve performs TryReserve(sz) and checks the admission rule:
 // admitted ⇒ total + sz ≤ max.
 func verifReserve(c *BlobMemoryCache, g *verifGhost, sz uint64, conc int) bool {
-	// wrap-around of the 64-bit sum totalSize+size is the subject of
-	// FINDINGS.md (VerifFindingTryReserveOverflow); left out here
-	verif.Assume(sz <= ^uint64(0)-g.total)
 	ok := c.TryReserve(sz)
-	// the sum cannot wrap under the assumption above
-	fits := g.total+sz <= g.max
+	// total + sz ≤ max in overflow-free form (g.total ≤ g.max by the invariant)
+	fits := verif.And(sz <= g.max, g.total <= g.max-sz)
 	verif.Assert("admitted-reservation-fits-budget", verif.Implies(ok, fits))
 	if ok {
 		verif.Reach("reservation-admitted")
